@@ -2,7 +2,7 @@
 import ast
 
 from .. import extract, rx
-from ..model import AnalysisError
+from ..model import AnalysisError, own_nodes
 from ..spec import grammar as ref
 
 PARSER = "py_gql.lang.parser"
@@ -206,6 +206,9 @@ def _exits_under(m, decide):
     out = []
     for kind, st, env in exits:
         calls = [ast.unparse(c.func) for c in env.get(boolx.CALLS, ())]
+        if kind == "return" and st is not None and st.value is not None:
+            # what the return statement denotes on this execution (named intermediate steps seen through)
+            st = ast.Return(value=boolx.path_expand(env.get(boolx.STMTS, ()), st, st.value, {}), lineno=st.lineno, col_offset=st.col_offset)
         out.append((kind, st, calls))
     return out
 
@@ -264,8 +267,18 @@ def _skip_contract(m):
 
 
 def _peek_contract(m):
-    txt = _norm(m.node)
-    ok = "delta = count - len(self._buffer)" in txt and "self._advance_window(by=delta)" in txt and "return self._buffer[-count]" in txt
+    """peek(count): fills the window by count - len(buffer) when that is non-zero, then returns buffer[-count]
+    (compared on canonical expressions: local names such as `delta` do not matter)."""
+    from ..canon import Canon
+    cn = Canon(m.node)
+    rets = [n for n in own_nodes(m.node) if isinstance(n, ast.Return)]
+    short = "count - len(self._buffer)"
+    tests_ok = {short, short + " != 0", short + " > 0", "len(self._buffer) < count", "count > len(self._buffer)", "len(self._buffer) != count"}
+    ifs = [n for n in own_nodes(m.node) if isinstance(n, ast.If)]
+    fills = [c for i in ifs if cn.text(i.test) in tests_ok for st in i.body for c in ast.walk(st)
+             if isinstance(c, ast.Call) and cn.func_text(c) == "self._advance_window"
+             and [(k.arg, cn.text(k.value)) for k in c.keywords] + [(None, cn.text(a)) for a in c.args] in ([("by", short)], [(None, short)])]
+    ok = len(rets) == 1 and rets[0].value is not None and cn.text(rets[0].value) == "self._buffer[-count]" and len(ifs) == 1 and len(fills) == 1
     return ok, "peek(count) must fill the window to `count` tokens and return self._buffer[-count]"
 
 
